@@ -37,7 +37,7 @@ class AbsVal:
     def av_truth(self):
         raise AnalysisError(f"{type(self).__name__}: truth value unknown")
 
-    def av_ext(self, name: str, args, kwargs):
+    def av_ext(self, name: str, args, kwargs, interp=None):
         """external (jnp/np) function applied with this value among the args;
         return NotImplemented to fall through."""
         return NotImplemented
